@@ -37,6 +37,8 @@ TMap(e) == [k |-> "map", e |-> e]
 Fld(n, tag, mode, t) == [n |-> n, tag |-> tag, mode |-> mode, t |-> t]   \* mode: "", "inline", "ignore"
 TStruct(fs) == [k |-> "struct", f |-> fs]
 
+\* every numeric kind (the text of a value is its exact decimal / shortest float64 text)
+NumKinds == {"int8", "int16", "int32", "int64", "int", "uint8", "uint16", "uint32", "uint64", "uint", "float32", "float64"}
 Inner == TStruct(<<Fld("X", <<"x">>, "", T("int64")), Fld("Y", <<"y", "z">>, "", T("string"))>>)
 Prims == {T("bool"), T("int8"), T("int64"), T("uint64"), T("float64"), T("string"), T("dur")}
 FieldTypes == Prims \cup {TPtr(T("int64")), TPtr(Inner), TSlice(T("int64")), TSlice(Inner), TArr(T("uint64")), TMap(T("string")), TMap(Inner), Inner}
@@ -44,6 +46,23 @@ FieldTypes == Prims \cup {TPtr(T("int64")), TPtr(Inner), TSlice(T("int64")), TSl
 \* ---------- values ----------
 V(k, v) == [k |-> k, v |-> v]
 NilV(k) == [k |-> k, nil |-> TRUE]
+\* the boundaries of every numeric kind ("extreme numbers"); a float32 is written as the float64 it widens to exactly
+NumVals(k) ==
+  CASE k = "int8"  -> {"-128", "127", "-1"}
+    [] k = "int16" -> {"-32768", "32767"}
+    [] k = "int32" -> {"-2147483648", "2147483647"}
+    [] k \in {"int64", "int"} -> {"-9223372036854775808", "9223372036854775807", "0", "-1"}
+    [] k = "uint8"  -> {"0", "255"}
+    [] k = "uint16" -> {"65535"}
+    [] k = "uint32" -> {"4294967295"}
+    [] k \in {"uint64", "uint"} -> {"18446744073709551615", "9223372036854775808", "9223372036854775807", "0"}
+    [] k = "float32" -> {"3.4028234663852886e+38", "-3.4028234663852886e+38", "1.401298464324817e-45", "0.10000000149011612",
+                         "16777216", "0", "-1.5", "+Inf", "-Inf", "1.1754943508222875e-38"}
+    [] k = "float64" -> {"1.7976931348623157e+308", "-1.7976931348623157e+308", "5e-324", "0.1", "1e+21", "9007199254740992",
+                         "-0.30000000000000004", "+Inf", "-Inf", "3.4028235e+38"}
+NumClass(k) == IF k \in {"float32", "float64"} THEN "float" ELSE IF k \in {"uint8", "uint16", "uint32", "uint64", "uint"} THEN "uint" ELSE "int"
+NumV(k) == {V(NumClass(k), x) : x \in NumVals(k)}
+
 RECURSIVE Vals(_)
 Vals(t) ==
   CASE t.k = "bool" -> {V("bool", TRUE)}
@@ -51,6 +70,8 @@ Vals(t) ==
     [] t.k = "int64" -> {V("int", "-9223372036854775808"), V("int", "7")}
     [] t.k = "uint64" -> {V("uint", "18446744073709551615"), V("uint", "0")}
     [] t.k = "float64" -> {V("float", "-1.5")}
+    [] t.k \in {"int16", "int32", "int", "uint8", "uint16", "uint32", "uint", "float32"} -> {V(NumClass(t.k), "7")}
+    [] t.k \in {"ustr", "uany"} -> {V("string", "ok")}          \* named string types with a custom Unpack method
     [] t.k = "string" -> {V("string", ""), V("string", "a$b.c,d{e}")}
     [] t.k = "dur" -> {V("dur", "1500000000")}                       \* nanoseconds; text "1.5s"
     [] t.k = "ptr" -> {NilV("ptr")} \cup {[k |-> "ptr", p |-> x] : x \in Vals(t.e)}
@@ -83,8 +104,8 @@ RECURSIVE Pack(_,_), PackFields(_,_,_,_)
 Pack(t, v) ==
   IF "nil" \in DOMAIN v THEN (IF v.k \in {"slice", "map"} THEN N(<<>>, <<>>) ELSE Nil)   \* nil slice / nil map: an empty config
   ELSE CASE t.k = "bool" -> PB(v.v)
-    [] t.k \in {"int8", "int64", "uint64", "float64"} -> PN(v.v)
-    [] t.k = "string" -> PS(v.v)
+    [] t.k \in NumKinds -> PN(v.v)
+    [] t.k \in {"string", "ustr", "uany"} -> PS(v.v)
     [] t.k = "dur" -> PS(DurText(v.v))
     [] t.k = "ptr" -> Pack(t.e, v.p)
     [] t.k \in {"slice", "array"} -> N(<<>>, [i \in 1..Len(v.xs) |-> Pack(t.e, v.xs[i])])
@@ -117,7 +138,7 @@ PackFields(t, v, i, acc) ==
 TextOf(t, v) == CASE t.k = "bool" -> (IF v.v THEN "true" ELSE "false")
                   [] t.k = "dur" -> DurText(v.v)
                   [] OTHER -> v.v
-IsPrimT(t) == t.k \in {"bool", "int8", "int64", "uint64", "float64", "string", "dur"}
+IsPrimT(t) == t.k \in {"bool", "string", "dur", "ustr", "uany"} \cup NumKinds
 \* struct{F0 t0; F1 t1} with exactly one inline map[string]string: what the map holds after Unpack
 RoundTrip(D, t, v) ==
   LET im == {i \in 1..Len(t.f) : t.f[i].mode = "inline" /\ t.f[i].t.k = "map"} IN
